@@ -706,6 +706,15 @@ def loadsDoc (doc : PyVal) : Except Err ComposeInfo :=
     | .error e => .error e
     | .ok () => .ok ci
 
+/-- `c = ComposeInfo(); c.loads(text); c.dumps()` with the JSON parser (`json.load`, not modelled) as a parameter -/
+def reloadDump (parse : Str → Except Err PyVal) (text : Str) : Except Err Str :=
+  match parse text with
+  | .error e => .error e
+  | .ok doc =>
+    match loadsDoc doc with
+    | .error e => .error e
+    | .ok ci => dumps ci
+
 /-! ### normal form: what a write/read cycle is documented to keep -/
 
 def Compose.norm (c : Compose) : Compose :=
